@@ -24,6 +24,10 @@ def _sigmas(c):
     if c.get("sigma_mode") == "per-element":
         from ase.data import chemical_symbols
         return {chemical_symbols[z]: c["sigma"] * (1 + 0.5 * i) for i, z in enumerate(sorted({a[0] for a in c["atoms"]}))}
+    if c.get("sigma_mode") == "per-atom":
+        return [c["sigma"] * (1 + 0.25 * i) for i in range(len(c["atoms"]))]
+    if c.get("sigma_mode") == "anisotropic":
+        return (c["sigma"], 0.5 * c["sigma"], 1.5 * c["sigma"])
     return c["sigma"]
 
 
@@ -103,7 +107,7 @@ def gen_case(ctx: Ctx, stratum=-1):
         lazy = False
         seeds = rng.sample(range(1, 10 ** 6), rng.randint(2, 4))
         spec = [-1, n - 1] if n > 1 else 1
-    return dict(seed_mode=rng.choice(["tuple", "tuple", "int"]), sigma_mode=rng.choice(["scalar", "scalar", "per-element"]),
+    return dict(seed_mode=rng.choice(["tuple", "tuple", "int", "none"]), sigma_mode=rng.choice(["scalar", "scalar", "per-element", "per-atom", "anisotropic"]),
                 entry=entry, algorithm=algorithm,
                 nslices=n, atoms=atoms, spec=spec, seeds=seeds, sigma=rng.choice([0.05, 0.1, 0.2]), builder=builder, det=det,
                 scan=scan, gpts=rng.choice([8, 12]), lazy=lazy, kind=kind_e,
@@ -399,6 +403,16 @@ class C02(Property):
     # ------------------------------------------------------------------ conformance
     def oracle(self, ctx: Ctx, c):
         tag = f"{c['kind']}:{c['builder']}:{c['det']}:{'lazy' if c['lazy'] else 'eager'}:entry={c.get('entry')}:{c.get('algorithm')}"
+        if c.get("seed_mode") == "none":
+            # seed=None: the ensemble draws its seed tuple at construction; everything else must then be determined by it
+            import abtem
+            drawn = abtem.FrozenPhonons(_atoms(c), len(c["seeds"]), _sigmas(c), seed=None).seed
+            if len(set(int(x) for x in drawn)) != len(c["seeds"]):
+                ctx.violation("seed-none-does-not-give-distinct-seeds", c, {"seeds": [int(x) for x in drawn]})
+                return
+            c = dict(c, seed_mode="tuple", seeds=[int(x) for x in drawn])
+        if c.get("coreloss"):
+            return self.coreloss(ctx, c, tag)
         ens = _ensemble(c, ensemble_mean=False)
         # (1) configurations are determined by the seeds alone
         confs = [_single_atoms(c, k) for k in range(len(c["seeds"]))]
@@ -440,9 +454,46 @@ class C02(Property):
             if not ok:
                 ctx.violation("result-depends-on-processing-order", c, {"what": why, "case": tag})
 
+    def coreloss(self, ctx: Ctx, c, tag):
+        """the core-loss loop (transition_potential_multislice_and_detect) has its own configuration loop: configuration k of
+        an ensemble run == the independent run through configuration k (synthetic transition potential, no GPAW needed)"""
+        import abtem
+        from abtem.core.axes import OrdinalAxis
+        from abtem.inelastic.core_loss import TransitionPotentialArray
+
+        gp = c["gpts"]
+        kx = np.fft.fftfreq(gp, 4.0 / gp)
+        k2 = kx[:, None] ** 2 + kx[None] ** 2
+        z = int(c["atoms"][0][0])
+
+        def tpa():
+            arr = np.exp(-k2 / 0.5)[None].astype(np.complex64)
+            return TransitionPotentialArray(Z=z, array=arr, energy=100e3, extent=4.0,
+                                            ensemble_axes_metadata=[OrdinalAxis(values=("a",))], metadata={"Z": z, "n": 1, "l": 0})
+
+        def run(src, lazy):
+            pot = abtem.Potential(src, gpts=gp, slice_thickness=1.0)
+            w = abtem.Probe(energy=100e3, semiangle_cutoff=30, extent=4.0, gpts=gp).build(
+                scan=abtem.CustomScan(np.array(c["scan"] or [[1.0, 1.5]])), lazy=lazy)
+            r = w.transition_potential_multislice(pot, tpa(), detectors=abtem.PixelatedDetector(max_angle=None))
+            return np.asarray((r.compute(progress_bar=False) if lazy else r).array)
+
+        singles = [run(_single_atoms(c, k), False) for k in range(len(c["seeds"]))]
+        arr = run(_ensemble(c, ensemble_mean=False), c["lazy"])
+        for k, one in enumerate(singles):
+            ok, why = _close(arr[k], one)
+            if not ok:
+                ctx.violation("core-loss-config-k-neq-single-run" + (":k>0" if k else ":k=0") + (":lazy" if c["lazy"] else ":eager"), c,
+                              {"config": k, "what": why, "case": tag})
+                return
+
     def conformance(self, ctx: Ctx):
         for i in range(ctx.n(24, 400)):
             c = gen_case(ctx, stratum=i % 6)
+            if i % 8 == 5:  # the core-loss configuration loop
+                c.update(lazy=(i % 16 == 13), coreloss=True, kind="frozen", builder="probe", entry="builder", algorithm="fourier", spec=None, mean=False,
+                         seeds=c["seeds"] if len(c["seeds"]) > 1 else c["seeds"] + [c["seeds"][0] + 1],
+                         scan=c["scan"] or [[1.0, 1.5]])
             try:
                 self.oracle(ctx, c)
             except LazyRaises as e:
